@@ -76,6 +76,12 @@ def twin_nodes_case(kind, res, runner_name, bname, make_backend):
             n1 = FunctionNode(f, name="n1", output_name="o", cache=cache)
             n2 = FunctionNode(f, name="n1", output_name="o", cache=cache).with_inputs({"a": "b", "b": "a"})
             return [Graph([n1]), Graph([n2])], {"a": 1, "b": 2}
+        if kind == "gate_targets":
+            from hypergraph import IfElseNode
+            dec = make_function("dec", ["a"], {}, ["_LOG.calls.append(('dec', {'a': a}))", "return a > 0"], {"_LOG": log})
+            br = lambda: [FunctionNode(make_function(n, ["a"], {}, [f"return {n!r}"], {}), name=n, output_name=n.lower()) for n in ("A", "B")]
+            return [Graph([IfElseNode(dec, when_true="A", when_false="B", name="gate", cache=cache)] + br()),
+                    Graph([IfElseNode(dec, when_true="B", when_false="A", name="gate", cache=cache)] + br())], {"a": 1}
         if kind == "renamed_input":
             n1 = FunctionNode(f, name="n1", output_name="o", cache=cache)
             n2 = FunctionNode(f, name="n1", output_name="o", cache=cache).with_inputs({"a": "c"})
@@ -183,7 +189,7 @@ def run(tier, seed, functions):
             for bname, mk in backends(tmp + f"/p{i}"):
                 check_transparent(spec, res, "sync", bname, mk)
             check_transparent(spec, res, "async", "mem", lambda: InMemoryCache())
-        for kind in ("outputs", "emit", "swapped_inputs", "renamed_input"):
+        for kind in ("outputs", "emit", "swapped_inputs", "renamed_input", "gate_targets"):
             for bname, mk in (("mem", lambda: InMemoryCache()), ("disk", lambda: DiskCache(tmp + "/twin_" + kind))):
                 for r in ("sync", "async"):
                     twin_nodes_case(kind, res, r, bname, mk)
